@@ -257,4 +257,38 @@ theorem tie_chooseBackend :
     chooseConds = ["if len(id) == 27", "if len(id) != 5", "if id == conn.cluster.ClusterID", "if ok"] ∧
     chooseReturns = ["conn.local", "conn.local", "be", "conn.local"] := by decide
 
+/-! ### inventory (third extension pass): which list methods exist and what `ListOptions` holds -/
+
+/-- generated.go holds exactly the five copies of the template (`generated_CollectionList` in list.go),
+made by generate.go from that template for exactly these type names; conn.go has exactly six `…List`
+methods, one per modelled kind (each tied to its `generated_…List` by `tie_coll` … `tie_user`). A new
+list method, or a generated copy for a further type, breaks this tie. -/
+theorem tie_listInventory :
+    generatedFuncs =
+      ["func (conn *Conn) generated_ContainerList(ctx context.Context, options arvados.ListOptions) (arvados.ContainerList, error) {",
+       "func (conn *Conn) generated_ContainerRequestList(ctx context.Context, options arvados.ListOptions) (arvados.ContainerRequestList, error) {",
+       "func (conn *Conn) generated_GroupList(ctx context.Context, options arvados.ListOptions) (arvados.GroupList, error) {",
+       "func (conn *Conn) generated_SpecimenList(ctx context.Context, options arvados.ListOptions) (arvados.SpecimenList, error) {",
+       "func (conn *Conn) generated_UserList(ctx context.Context, options arvados.ListOptions) (arvados.UserList, error) {"] ∧
+    connListMethods =
+      ["func (conn *Conn) CollectionList(ctx context.Context, options arvados.ListOptions) (arvados.CollectionList, error) {",
+       "func (conn *Conn) ContainerList(ctx context.Context, options arvados.ListOptions) (arvados.ContainerList, error) {",
+       "func (conn *Conn) ContainerRequestList(ctx context.Context, options arvados.ListOptions) (arvados.ContainerRequestList, error) {",
+       "func (conn *Conn) GroupList(ctx context.Context, options arvados.ListOptions) (arvados.GroupList, error) {",
+       "func (conn *Conn) SpecimenList(ctx context.Context, options arvados.ListOptions) (arvados.SpecimenList, error) {",
+       "func (conn *Conn) UserList(ctx context.Context, options arvados.ListOptions) (arvados.UserList, error) {"] ∧
+    generateTypes =
+      ["orig := regexp.MustCompile(`(?ms)\\nfunc [^\\n]*generated_CollectionList\\(.*?\\n}\\n`).Find(buf)",
+       "for _, t := range []string{\"Container\", \"ContainerRequest\", \"Group\", \"Specimen\", \"User\"} {"] :=
+  ⟨rfl, rfl, rfl⟩
+
+/-- every field of `arvados.ListOptions`: Filters, Count, Limit, Offset, Order, BypassFederation,
+ForwardedFor are read by `plan`; Select is rewritten by `remoteOpts`; ClusterID, Where, Distinct,
+IncludeTrash, IncludeOldVersions, Include are carried by the model's `Opts` and forwarded untouched
+(`C20_options_forwarded`). A further option breaks this tie. -/
+theorem tie_listOptionsFields : listOptionsFields =
+    ["ClusterID string", "Select []string", "Filters []Filter", "Where map[string]interface{}", "Limit int64",
+     "Offset int64", "Order []string", "Distinct bool", "Count string", "IncludeTrash bool",
+     "IncludeOldVersions bool", "BypassFederation bool", "ForwardedFor string", "Include string"] := rfl
+
 end ArvVerif.Tie.C20
